@@ -35,6 +35,9 @@ func main() {
 			defer pprof.StopCPUProfile()
 		}
 	}
+	if *tier == "thorough" {
+		lbDepthLimit = 5
+	}
 	debug.SetGCPercent(200) // the prover allocates many short-lived rows; memory is not the constraint
 	start := time.Now()
 	var ids []string
@@ -91,6 +94,16 @@ func main() {
 		if *list {
 			for _, o := range c.Obls {
 				fmt.Printf("%-9s %s  @%s  %s\n", o.Verdict, o.Key(), o.Pos, o.Detail)
+			}
+		}
+		if *tier == "thorough" && os.Getenv("GMSMCHECK_SELFTEST") == "" && onlyKey == "" {
+			rs := runSelftest(id)
+			c.Sensitivity = rs
+			c.Notes = append(c.Notes, sensitivityNote(rs))
+			for _, r := range rs {
+				if r.Applied && !r.Detected {
+					fmt.Printf("SELFTEST-MISS property=%s seed=%s (the recorded breaking change is not reported; the verdict on /repo is unaffected)\n", id, r.Seed)
+				}
 			}
 		}
 		if e := c.Finish(st); e != 0 {
